@@ -309,7 +309,7 @@ func cmdCheck(prop, tier string) int {
 		for _, v := range res.Violations {
 			matched := false
 			for _, k := range known {
-				if k.Property == prop && matchKnown(k, v) {
+				if matchKnown(k, v) {
 					knownHits[k.ID]++
 					matched = true
 					break
@@ -341,7 +341,7 @@ func cmdCheck(prop, tier string) int {
 	inventoryRows = invRows
 	// known findings
 	for _, k := range known {
-		if k.Property == prop && k.Status == "known" && knownHits[k.ID] > 0 {
+		if k.Status == "known" && knownHits[k.ID] > 0 {
 			fmt.Printf("KNOWN-FINDING: property=%s %s (%s; %d path(s))\n", prop, k.What, k.ID, knownHits[k.ID])
 		}
 	}
